@@ -84,29 +84,27 @@ fails after it took effect and the `GetMeta` of the cleanup fails too (`setmeta_
 `fault_safe_writer` (and `fault_safe_writer_created`, from an empty storage) hold for every good configuration,
 the code as found included, and therefore carry `noD10`/`noD26`.
 
-**The repaired code under the D10/D26 shapes: `fault_safe_full_partial`.**  Between a manifest append or `SetMeta`
-that reported an error *after it took effect* and the next successful `newManifest` the storage is one edit ahead of
-the session: every crash image shows, or may show, an edit whose commit was reported as failed.  The machine carries
-that edit as a ghost (`St.limbo`, set where the operation fails, cleared where `SetMeta` succeeds, never read by the
-machine); the invariant (`Proofs/DurableInv.lean`: `MirrorL`, `LimboOK`) says that the session mirrors the last view
-of the manifest *up to that edit*, that the edit is the one the running job is retrying (`JPc.retry`) or that of a
-transaction discarded after its failed commit (`OrphanOK`: one synced table with one group, reported as failed, its
-sequence numbers consumed — the next `Open` adopts it, nothing acknowledged depends on it), and the manifest clause of
-`JobOK.fresh` lets the retried edit's tables be live in the views that already show it.  With this
-`fault_safe_full_partial` proves crash consistency for the repaired configuration, from an empty storage, for runs in
-which **every storage operation may fail in any way — the two D10/D26 shapes "append of the record fails with effect"
-and "`SetMeta` fails with effect" included, followed by `Discard`, retries, further faults, crashes — except that the
-manifest `Sync` of a commit does not fail** (`Act.noSyncFault`).  That is the gap to `fault_safe_full` (the statement
-with every fault class), named precisely: at the pc `sync` the job is behind `JPc.beforeCommit`, and the clauses of
-the invariant that a retry needs again (`InputsOK`'s live inputs, `JobOK.fresh` for the synced prefix,
-`FrozenFacts`' `FlushPending` part) are guarded by `beforeCommit`; a failing `Sync` takes the job back to `append`,
-where they have to hold again.  They do hold in every reachable state (the random exploration of the machine with
-every fault class enabled — `Scratch/Explore.lean` in the work area, mode `q`: the invariant itself evaluated after
-every step, 0 violations — covers failing `Sync`s), but the invariant is not inductive there yet.  The same
-exploration finds violations for `discardKeepsTablesWhenUncertain = false`, `cleanupChecksCurrent = false` and
-`cleanupKeepsWhenGetMetaFails = false`.  The standing side condition of the proof is `Dur.LimboSafe`: while the
-storage is ahead, `Discard` must leave the tables alone (the repair of D10) — for the code as found the D10 run
-violates exactly it.  Damaged data under checksum verification: C12 (journal chunks) and C13 (table blocks).
+**The repaired code under every storage fault: `fault_safe` (= `fault_safe_full`).**  Between a manifest append,
+`Sync` or `SetMeta` that reported an error *with the record in the file* and the next successful `newManifest` the
+storage is one edit ahead of the session: every crash image shows, or may show, an edit whose commit was reported as
+failed.  The machine carries that edit as a ghost (`St.limbo`, set where the operation fails, cleared where `SetMeta`
+succeeds, never read by the machine); the invariant (`Proofs/DurableInv.lean`: `MirrorL`, `LimboOK`) says that the
+session mirrors the last view of the manifest *up to that edit*, that the edit is the one the running job is retrying
+(`JPc.retry`) or that of a transaction discarded after its failed commit (`OrphanOK`: one synced table with one group,
+reported as failed, its sequence numbers consumed — the next `Open` adopts it, nothing acknowledged depends on it), and
+the manifest clause of `JobOK.fresh` lets the retried edit's tables be live in the views that already show it.  At the
+pc `sync` (the record written, not yet synced) the job keeps what a retry needs again (`JobManifest … .sync`,
+`FlushPending` over `JPc.uninstalled`).  With this `fault_safe` proves crash consistency for the repaired configuration,
+from an empty storage, for **every run of the machine: every storage operation may fail in any way at any time** — the
+shapes of D10 ("the append of the record / the manifest `Sync` fails with the record in the file") and of D26
+("`SetMeta` fails after it took effect", with or without the `GetMeta` of the cleanup failing too) included, followed by
+`Discard`, retries, further faults, crashes.  There is no side condition on the run; the side condition on the
+configuration is the three repairs.  The standing condition inside the proof is `Dur.LimboSafe`: while the storage is
+ahead, `Discard` must leave the tables alone (the repair of D10) — for the code as found the D10 run violates exactly it.
+Random exploration of the machine with every fault class enabled (`Scratch/Explore.lean` in the work area, the
+invariant itself evaluated after every step) agrees: 0 violations for the repaired configuration, violations for
+`discardKeepsTablesWhenUncertain = false`, `cleanupChecksCurrent = false` and `cleanupKeepsWhenGetMetaFails = false`.
+Damaged data under checksum verification: C12 (journal chunks) and C13 (table blocks).
 -/
 namespace GoLevel.C08
 open GoLevel GoLevel.Dur
@@ -392,26 +390,41 @@ example : bigAllowed {} Act.faultsOK CPc.noD26 init0 faultyCreation = true := by
 example : (bigRun {} init0 faultyCreation).map (fun b => (C04.openError {} (crashWith {} b.disk), b.st.phase)) =
     some (none, .running) := by decide
 
-/-- **C08 for the repaired code, every storage fault but a failing manifest `Sync`.**  From an empty storage
-    (`Dur.init0`: the creation of the DB in front, every one of its operations may fail, the machine may crash inside
-    it), for the configuration with D4, D10 and D26 repaired: every run in which **any storage operation fails in any
-    way** — the append of a commit's record or `SetMeta` failing *after they took effect* included (the shapes of D10
-    and D26), with `Discard`s of the failed transactions, retries, and further faults in between — ends in a state
-    all of whose crash images open and are consistent with the history.  The one exclusion is `Act.noSyncFault`: the
-    manifest `Sync` of a commit does not fail (see the header for what is missing there). -/
-theorem fault_safe_full_partial {cfg : Cfg} (hg : cfg.Good) (hcs : cfg.consumeSeqOnJournalError = true)
-    (hc : cfg.manifestsAloneAreNoDB = true) (h10 : cfg.discardKeepsTablesWhenUncertain = true)
-    (h26a : cfg.cleanupChecksCurrent = true) (h26b : cfg.cleanupKeepsWhenGetMetaFails = true)
-    {xs : List BAct} {b : Big}
-    (hal : bigAllowed cfg (fun sd a => a.noSyncFault sd.1) (fun _ _ _ => true) init0 xs = true)
-    (hr : bigRun cfg init0 xs = some b)
-    {d' : Disk} (hi : IsCrashImage b.disk d') {c : UCmp} (hl : LawfulUCmp c) (hw : ∀ g ∈ issuedGrps b.st, g.wf) :
-    ∃ r, recoverR cfg d' = .ok r ∧ ∃ sel, C04.Consistent c b.st r sel := by
+/-- **The statement with every fault class**: crash consistency for every run of the machine with the creation in
+    front in which any storage operation may fail in any way, for the configuration with D4, D10, D12 and D26 repaired. -/
+def fault_safe_full : Prop :=
+  ∀ (cfg : Cfg), cfg.Good → cfg.consumeSeqOnJournalError = true → cfg.manifestsAloneAreNoDB = true →
+    cfg.discardKeepsTablesWhenUncertain = true → cfg.cleanupChecksCurrent = true →
+    cfg.cleanupKeepsWhenGetMetaFails = true →
+    ∀ (xs : List BAct) (b : Big), bigRun cfg init0 xs = some b →
+      ∀ d', IsCrashImage b.disk d' → ∀ (c : UCmp), LawfulUCmp c → (∀ g ∈ issuedGrps b.st, g.wf) →
+        ∃ r, recoverR cfg d' = .ok r ∧ ∃ sel, C04.Consistent c b.st r sel
+
+theorem bigAllowed_true (cfg : Cfg) (b : Big) (xs : List BAct) :
+    bigAllowed cfg (fun _ _ => true) (fun _ _ _ => true) b xs = true := by
+  induction xs generalizing b with
+  | nil => rfl
+  | cons x xs ih =>
+    unfold bigAllowed
+    rw [Bool.and_eq_true]
+    refine ⟨by split <;> rfl, ?_⟩
+    cases bigStep cfg b x with
+    | none => rfl
+    | some b' => exact ih b'
+
+/-- **C08 for the repaired code, every storage fault.**  From an empty storage (`Dur.init0`: the creation of the DB in
+    front, every one of its operations may fail, the machine may crash inside it), for the configuration with D4, D10,
+    D12 and D26 repaired: **every run** — any storage operation failing in any way, the append of a commit's record, the
+    manifest `Sync` and `SetMeta` failing *with the record in the file / after `CURRENT` was switched* included (the
+    shapes of D10 and D26), with `Discard`s of the failed transactions, retries, and further faults in between — ends
+    in a state all of whose crash images open and are consistent with the history. -/
+theorem fault_safe : fault_safe_full := by
+  intro cfg hg hcs hc h10 h26a h26b xs b hr d' hi c hl hw
   obtain ⟨ch, rfl⟩ := hi
   have hrep : cfg.Repaired := ⟨hg, hcs, h10, h26a, h26b⟩
   have hinv : BigInv cfg b := by
-    refine bigInv_run (P := fun sd a => a.noSyncFault sd.1)
-      (fun s d a s' d' h hp hs => inv_step_repaired hrep h hp hs) ?_ (bigInv_init0 cfg) xs hal hr
+    refine bigInv_run (P := fun _ _ => true) (Q := fun _ _ _ => true)
+      (fun s d a s' d' h _ hs => inv_step_repaired hrep h hs) ?_ (bigInv_init0 cfg) xs (bigAllowed_true cfg _ xs) hr
     intro pc o gm _ _ _
     rw [h26a, h26b]
     cases gm <;> rfl
@@ -419,15 +432,14 @@ theorem fault_safe_full_partial {cfg : Cfg} (hg : cfg.Good) (hcs : cfg.consumeSe
   exact ⟨r, hrec, C04.consistent_of_good hl hw hgood⟩
 
 /-- … and from the created DB (`Dur.init`) -/
-theorem fault_safe_full_partial_running {cfg : Cfg} (hg : cfg.Good) (hcs : cfg.consumeSeqOnJournalError = true)
+theorem fault_safe_running {cfg : Cfg} (hg : cfg.Good) (hcs : cfg.consumeSeqOnJournalError = true)
     (h10 : cfg.discardKeepsTablesWhenUncertain = true)
     (h26a : cfg.cleanupChecksCurrent = true) (h26b : cfg.cleanupKeepsWhenGetMetaFails = true)
-    {as : List Act} {s : St} {d : Disk}
-    (hal : Allowed cfg (fun sd a => a.noSyncFault sd.1) init as) (hr : run cfg init as = some (s, d))
+    {as : List Act} {s : St} {d : Disk} (hr : run cfg init as = some (s, d))
     {d' : Disk} (hi : IsCrashImage d d') {c : UCmp} (hl : LawfulUCmp c) (hw : ∀ g ∈ issuedGrps s, g.wf) :
     ∃ r, recoverR cfg d' = .ok r ∧ ∃ sel, C04.Consistent c s r sel := by
   obtain ⟨ch, rfl⟩ := hi
-  have hinv : Inv cfg s d := inv_run_repaired ⟨hg, hcs, h10, h26a, h26b⟩ (inv_init cfg) as hal hr
+  have hinv : Inv cfg s d := inv_run_repaired ⟨hg, hcs, h10, h26a, h26b⟩ (inv_init cfg) as hr
   obtain ⟨r, hrec, hgood⟩ := (hinv.disk.crash hg.noTrace ch).open_ok
   exact ⟨r, hrec, C04.consistent_of_good hl hw hgood⟩
 
@@ -445,9 +457,8 @@ def trAppendFailsDiscardThenSetMetaFails : List Act :=
    .job false .ok, .job false .ok, .job false .ok, .job false .ok,      -- the retry: another manifest
    .job false .ok, .job false .ok, .job false .ok, .job false .ok, .job false .ok, .job false .ok]
 
-/-- … is a run `fault_safe_full_partial_running` speaks about (and none `fault_safe_writer` does); the acknowledged
+/-- … is a run `fault_safe_running` speaks about and none `fault_safe_writer` does; the acknowledged
     write survives a crash after every prefix; at the end the flush is complete and the value is read -/
-example : allowed {} (fun sd a => a.noSyncFault sd.1) init trAppendFailsDiscardThenSetMetaFails = true := by decide
 example : allowed {} Act.faultsOK init trAppendFailsDiscardThenSetMetaFails = false := by decide
 example : (List.range (trAppendFailsDiscardThenSetMetaFails.length + 1)).all (fun n =>
     C04.losesAcked {} {} (trAppendFailsDiscardThenSetMetaFails.take n) == some false) = true := by decide
@@ -460,22 +471,32 @@ example : (run {} init (trAppendFailsDiscardThenSetMetaFails.take 8)).map (fun s
     (sd.1.limbo.isSome, sd.1.job, C04.openError {} (crashWith {} sd.2), sd.2.tables.map (·.1))) =
     some (true, none, none, [3]) := by decide
 
-/-- **The statement with every fault class** (the manifest `Sync` included; not proved, see the header): crash
-    consistency for every run of the machine with the creation in front in which any storage operation may fail in
-    any way. -/
-def fault_safe_full : Prop :=
-  ∀ (cfg : Cfg), cfg.Good → cfg.consumeSeqOnJournalError = true → cfg.manifestsAloneAreNoDB = true →
-    cfg.discardKeepsTablesWhenUncertain = true → cfg.cleanupChecksCurrent = true →
-    cfg.cleanupKeepsWhenGetMetaFails = true →
-    ∀ (xs : List BAct) (b : Big), bigRun cfg init0 xs = some b →
-      ∀ d', IsCrashImage b.disk d' → ∀ (c : UCmp), LawfulUCmp c → (∀ g ∈ issuedGrps b.st, g.wf) →
-        ∃ r, recoverR cfg d' = .ok r ∧ ∃ sel, C04.Consistent c b.st r sel
+/-- a synced write and its flush; the `Sync` of the manifest after the append of the commit's record fails (`o`: with the
+    record durable or not); the commit is retried through `newManifest` and completes -/
+def flushManifestSyncFails (o : Outcome) : List Act :=
+  [.wAppend C04.putKV true .ok, .wSync .ok, .wApply, .wPublish, .wAck, .rotate .ok, .flushStart,
+   .job false .ok, .job false .ok, .job false .ok,                      -- the table
+   .job false .ok, .job false o] ++                                     -- append, Sync fails
+  List.replicate 10 (.job false .ok)                                    -- the retry, the removals
+
+/-- … no acknowledged write is lost after any prefix, whichever way the `Sync` fails; the storage is ahead of the
+    session after the failure; the flush completes and the value is read -/
+example : (List.range ((flushManifestSyncFails .failEffect).length + 1)).all (fun n =>
+    C04.losesAcked {} {} ((flushManifestSyncFails .failEffect).take n) == some false) = true := by decide
+example : (List.range ((flushManifestSyncFails .failNoEffect).length + 1)).all (fun n =>
+    C04.losesAcked {} {} ((flushManifestSyncFails .failNoEffect).take n) == some false) = true := by decide
+example : (run {} init ((flushManifestSyncFails .failNoEffect).take 12)).map (fun sd =>
+    (sd.1.limbo.isSome, sd.1.manifestFailed, sd.1.job.map (·.pc))) = some (true, true, some .append) := by decide
+example : (run {} init (flushManifestSyncFails .failNoEffect)).map (fun sd => (sd.1.job, sd.1.limbo.isSome)) =
+    some (none, false) := by decide
+example : C04.readsK {} (flushManifestSyncFails .failEffect) = some (some [118]) := by decide
+example : C04.readsK {} (flushManifestSyncFails .failNoEffect) = some (some [118]) := by decide
 
 /-- The property theorems of this file (for the audit). -/
 def theorems : List String :=
   ["GoLevel.C08.fault_safe_partial", "GoLevel.C08.fault_safe_jobs", "GoLevel.C08.fault_safe_writer",
-   "GoLevel.C08.fault_safe_writer_created", "GoLevel.C08.fault_safe_full_partial",
-   "GoLevel.C08.fault_safe_full_partial_running", "GoLevel.C08.d4_loses_acked_write",
+   "GoLevel.C08.fault_safe_writer_created", "GoLevel.C08.fault_safe",
+   "GoLevel.C08.fault_safe_running", "GoLevel.C08.d4_loses_acked_write",
    "GoLevel.C08.d10_discard_after_failed_commit_loses_table",
    "GoLevel.C08.d26_setmeta_effect_then_cleanup_loses_current", "GoLevel.C08.setmeta_and_getmeta_fail_lose_current",
    "GoLevel.C08.code_discard_guard_and_cleanup_check"]
